@@ -530,3 +530,99 @@ func c18ConcurrentCancel(r *Run) {
 		r.Violate("concurrentcancel.crash", "ops", "concurrent Cancel calls for one key made Cancel panic (in a caller that does not recover, the process is gone)", map[string]any{"goroutines_per_round": 6}, firstPanic, "no panic")
 	}
 }
+
+// c18LargeRepliesSlowShared: one Server behind the demultiplexer, eight keys, unary replies of 3000
+// bytes (each key's reply is its own letter repeated), and a shared transport that takes one envelope
+// every few milliseconds, so that replies wait in the keys' writer goroutines while further replies are
+// being produced. What reaches the shared transport for a key is what was written on that key's logical
+// connection: every reply is its own key's, unchanged.
+func c18LargeRepliesSlowShared(r *Run) {
+	if !r.Want("largereplies") {
+		return
+	}
+	const keys, size = 8, 3000
+	in := map[string]any{"keys": keys, "reply_bytes": size, "shared_transport": "goat.NewGoatOverChannel, takes one envelope every 2 ms"}
+	r.Progress("largereplies", in)
+	// the library's channel transport, unbuffered both ways: a Write completes when the envelope is taken,
+	// and what is taken is the very envelope that was written
+	toDm, fromDm := make(chan *Rpc), make(chan *Rpc)
+	shared := goat.NewGoatOverChannel(toDm, fromDm)
+	ctx, cancel := context.WithCancel(context.Background())
+	impl := &Impl{}
+	impl.SetUnary(func(c context.Context, req []byte) ([]byte, error) {
+		out := make([]byte, size)
+		for i := range out {
+			out[i] = req[0]
+		}
+		return out, nil
+	})
+	srv := goat.NewServer("srv")
+	srv.RegisterService(&echoDesc, impl)
+	var serving sync.WaitGroup
+	dm := goat.NewDemux(ctx, shared, func(e *Rpc) string { return e.GetHeader().GetSource() }, func(rw goat.RpcReadWriter) {
+		serving.Add(1)
+		defer serving.Done()
+		srv.Serve(ctx, rw)
+	})
+	ran := make(chan struct{})
+	go func() { defer close(ran); dm.Run() }()
+	defer func() {
+		srv.Stop()
+		dm.Stop()
+		cancel()
+		close(toDm)
+		within(hangTimeout, func() { <-ran; serving.Wait() })
+	}()
+	id := uint64(0)
+	for round, rounds := 0, r.Scale(6, 60); round < rounds && r.NumViolations() <= 4; round++ {
+		want := map[uint64]byte{}
+		fed := true
+		for rep := 0; rep < 2 && fed; rep++ {
+			for k := 0; k < keys && fed; k++ {
+				id++
+				letter := byte('A' + k)
+				want[id] = letter
+				body, _ := goat_marshal(&wrapperspb.BytesValue{Value: []byte{letter}})
+				e := &Rpc{Id: id, Header: &goatorepo.RequestHeader{Method: mUnary, Source: fmt.Sprint("k", k), Destination: "srv"}, Body: &goatorepo.Body{Data: body}}
+				select {
+				case toDm <- e:
+				case <-time.After(hangTimeout):
+					r.Violate("largereplies.stall", "ops", "the demultiplexer's run loop stopped reading the shared transport", in, goroutineDump(), nil)
+					fed = false
+				}
+				if round%2 == 0 {
+					time.Sleep(2 * time.Millisecond) // every other round the replies are produced one after the other
+				}
+			}
+		}
+		for n := 0; fed && n < len(want); n++ {
+			time.Sleep(2 * time.Millisecond)
+			select {
+			case got := <-fromDm:
+				letter, known := want[got.Id]
+				val := c11BodyOf(got)
+				bad := !known || got.GetHeader().GetDestination() != fmt.Sprint("k", int(letter-'A')) || len(val) != size
+				for i := 0; !bad && i < len(val); i++ {
+					bad = val[i] != letter
+				}
+				if bad {
+					head := val
+					if len(head) > 12 {
+						head = head[:12]
+					}
+					r.Violate("largereplies.changed", "ops", "a reply written on a key's logical connection reached the shared transport changed", in,
+						fmt.Sprintf("id %d for %s: %d bytes starting %q", got.Id, got.GetHeader().GetDestination(), len(val), head), fmt.Sprintf("%d x %q", size, string(letter)))
+					fed = false
+				}
+			case <-time.After(hangTimeout):
+				r.Violate("largereplies.none", "ops", "a unary call of a live key was not answered", in, goroutineDump(), nil)
+				fed = false
+			}
+		}
+		r.Eval(fmt.Sprintf("largereplies/%d", round), true)
+		r.Count("c18.largereplies")
+		if !fed {
+			return
+		}
+	}
+}
